@@ -21,7 +21,8 @@ type Outcome struct {
 	DelayArg  int  `json:"da,omitempty"`
 	Gate      bool `json:"g,omitempty"`
 	Bar       bool `json:"b,omitempty"`
-	Nest      bool `json:"n,omitempty"` // the function first runs another program's directive to completion (nested directive)
+	ErrKind   int  `json:"ek,omitempty"` // errors: 0 pointer, 1 comparable struct value, 2 slice-typed error (not comparable), 3 a wrapped error (fmt.Errorf %w)
+	Nest      bool `json:"n,omitempty"`  // the function first runs another program's directive to completion (nested directive)
 }
 
 type FnInfo struct {
@@ -47,6 +48,7 @@ type Scenario struct {
 	ReachTgt  int                        `json:"reach_tgt,omitempty"`
 	BarrierN  int                        `json:"barrier_n,omitempty"`
 
+	FarDeadline  bool   `json:"far_deadline,omitempty"` // the directive's context carries a deadline one hour away
 	CancelBefore bool   `json:"cancel_before,omitempty"`
 	CancelOnFn   int    `json:"cancel_on_fn,omitempty"` // helper cancels once this function has started
 	GateOpen     string `json:"gate_open,omitempty"`    // "", "return", "cancelled", "census"
@@ -166,6 +168,7 @@ func genDelay(r *Rand) (int, int) {
 func GenScenario(p *Program, r *Rand, exec uint64, tagName string, k int) *Scenario {
 	s := &Scenario{Tag: tagName, Out: map[int]Outcome{}, ElemOut: map[int]map[uint64]Outcome{}, FnInfo: p.FnInfos()}
 	s.Conc = r.PickInt(0, 1, 1, 2, 2, 3, 4, 8, 64)
+	s.FarDeadline = exec%4 == 1
 	if p.Flow != nil {
 		for i := range p.Flow.Params {
 			s.Params = append(s.Params, ParamTok(exec, i))
@@ -216,7 +219,7 @@ func GenScenario(p *Program, r *Rand, exec uint64, tagName string, k int) *Scena
 	}
 	failOutcome := func(f *Fn, panicsOnly bool) Outcome {
 		if f.Err && !panicsOnly && r.Chance(1, 2) {
-			return Outcome{Kind: OErr}
+			return Outcome{Kind: OErr, ErrKind: r.PickInt(0, 0, 1, 2, 3)}
 		}
 		return Outcome{Kind: OPanic, PanicKind: r.Intn(NumPanicKinds)}
 	}
@@ -417,7 +420,7 @@ func GenScenario(p *Program, r *Rand, exec uint64, tagName string, k int) *Scena
 		round := k / len(cand)
 		o := Outcome{Kind: OPanic, PanicKind: k % NumPanicKinds}
 		if f.Err && round%2 == 0 {
-			o = Outcome{Kind: OErr}
+			o = Outcome{Kind: OErr, ErrKind: (k / 2) % 4}
 		}
 		if f.Role == "slice" || f.Role == "map" {
 			c := p.collOf(f.ID)
